@@ -218,31 +218,29 @@ Proof.
   - apply pm_prop_err. exact Hn.
 Qed.
 
-(* a refused message changes nothing in the node's state store, unless the round was found in a
-   cancelled signing state (the lazy restart is persisted before the message itself is judged:
-   recorded finding) *)
+Lemma pm_restart_keeps_trace now m h inst :
+  match pm_restart now m h inst with ROk h' _ => h' = h | RErr h' => h' = h | RPanic => True end.
+Proof. unfold pm_restart. destruct (do_live _ _ _); reflexivity. Qed.
+
+(* a refused message changes nothing in the node's state store - whatever state the round was found
+   in (since the repair of the lazy restart it holds for rounds found in a cancelled signing state too) *)
 Theorem refused_message_writes_nothing now st m h :
-  (forall d, tget' (ns_rounds st) (m_round m) = Some d -> needs_lazy_restart (d_state d) = false) ->
   process_message now {| h_st := st; h_tr := [] |} m = RErr h ->
   no_state_writes (h_tr h).
 Proof.
-  intros Hstate H. unfold process_message in H.
+  intros H. unfold process_message in H.
   destruct (get_instance {| h_st := st; h_tr := [] |} (m_round m) true) as [h1 inst| |] eqn:Eg; try discriminate.
   2:{ unfold get_instance in Eg. cbn [h_st] in Eg.
       destruct (tget' (ns_rounds st) (m_round m)) as [d|].
       - destruct (from_dump d); try discriminate. inversion Eg; subst. inversion H; subst. intros w [].
       - destruct (N.eqb (m_round m) 0); [inversion Eg; subst; inversion H; subst; intros w []|].
         destruct create; try discriminate; inversion Eg; subst; inversion H; subst; intros w []. }
-  assert (Hh1 : h1 = {| h_st := st; h_tr := [] |} /\ needs_lazy_restart (i_dstate inst) = false).
+  assert (Hh1 : h1 = {| h_st := st; h_tr := [] |}).
   { unfold get_instance in Eg. cbn [h_st] in Eg.
     destruct (tget' (ns_rounds st) (m_round m)) as [d|] eqn:Ed.
-    - specialize (Hstate d eq_refl). unfold from_dump in Eg.
-      destruct (machine_by_state (d_state d)); try discriminate.
-      destruct (copy_with_state_ok _ _); try discriminate. inversion Eg; subst. cbn. auto.
-    - destruct (N.eqb (m_round m) 0); [discriminate|].
-      unfold create in Eg. destruct (table_by_name _); try discriminate.
-      destruct (copy_with_state_ok _ _); try discriminate. inversion Eg; subst. cbn. auto. }
-  destruct Hh1 as [-> Hnl]. unfold needs_lazy_restart in Hnl. apply orb_false_iff in Hnl as [Hn1 Hn2].
+    - destruct (from_dump d); try discriminate. inversion Eg; reflexivity.
+    - destruct (N.eqb (m_round m) 0); [discriminate|]. destruct create; try discriminate; inversion Eg; reflexivity. }
+  subst h1.
   assert (Hnil : no_state_writes (h_tr {| h_st := st; h_tr := [] |})) by (intros w []).
   destruct (negb (String.eqb (m_event m) ev_sig_init) && _); [inversion H; subst; exact Hnil|].
   destruct (String.eqb (m_event m) ev_sig_reconstructed).
@@ -250,7 +248,30 @@ Proof.
     unfold save_signatures in H. destruct (map _ l); [inversion H; subst; exact Hnil|discriminate]. }
   destruct (String.eqb (m_event m) ev_sig_recon_failed).
   { destruct (m_req m) as [[]| |]; try discriminate; inversion H; subst; exact Hnil. }
-  rewrite Hn1 in H. cbn [andb] in H. cbv zeta in H. rewrite Hn2 in H. cbn [andb] in H.
-  destruct (m_req m) as [req| |]; try (inversion H; subst; exact Hnil).
-  eapply pm_tail_err; [exact Hnil|exact H].
+  destruct (has_suffix (i_dstate inst) "_error" && _); [discriminate|]. cbv zeta in H.
+  (* the (possible) lazy restart leaves the write trace empty *)
+  assert (Hstep5 : forall h0 i, h0 = {| h_st := st; h_tr := [] |} ->
+    (if has_suffix (i_dstate i) "_timeout" && (has_prefix (i_dstate i) "state_sig_" || has_prefix (i_dstate i) "state_dkg")
+     then ROk h0 None
+     else match (if has_suffix (i_dstate i) "_timeout" && has_prefix (i_dstate i) "state_signing_"
+                 then match p_sgn (i_payload i) with Some _ => pm_restart now m h0 i | None => RPanic end
+                 else ROk h0 i) with
+          | ROk h2 inst2 => match m_req m with MFsm req => pm_tail now m req h2 inst2 | _ => RErr h2 end
+          | RErr h2 => RErr h2
+          | RPanic => RPanic
+          end) = RErr h -> no_state_writes (h_tr h)).
+  { intros h0 i -> H5. destruct (has_suffix (i_dstate i) "_timeout" && (_ || _)); [discriminate|].
+    destruct (has_suffix (i_dstate i) "_timeout" && has_prefix (i_dstate i) "state_signing_").
+    - destruct (p_sgn (i_payload i)); [|discriminate].
+      pose proof (pm_restart_keeps_trace now m {| h_st := st; h_tr := [] |} i) as Hk.
+      destruct (pm_restart now m {| h_st := st; h_tr := [] |} i) as [h2 i2|h2|]; try discriminate; subst h2.
+      + destruct (m_req m) as [req| |]; try (inversion H5; subst; exact Hnil). eapply pm_tail_err; [exact Hnil|exact H5].
+      + inversion H5; subst. exact Hnil.
+    - destruct (m_req m) as [req| |]; try (inversion H5; subst; exact Hnil). eapply pm_tail_err; [exact Hnil|exact H5]. }
+  destruct (has_suffix (i_dstate inst) "_error" && match p_sgn (i_payload inst) with Some _ => true | None => false end).
+  - pose proof (pm_restart_keeps_trace now m {| h_st := st; h_tr := [] |} inst) as Hk.
+    destruct (pm_restart now m {| h_st := st; h_tr := [] |} inst) as [h2 i2|h2|]; try discriminate; subst h2.
+    + apply (Hstep5 _ i2 eq_refl H).
+    + inversion H; subst. exact Hnil.
+  - apply (Hstep5 _ inst eq_refl H).
 Qed.
